@@ -44,6 +44,10 @@ func curGoid() int {
 	return id
 }
 
+// stepLimit: how long an invocation may take to reach its next switch point or its end (a request
+// that never does is the finding; generous, so that a loaded machine is not mistaken for one)
+var stepLimit = 150 * time.Second // set from OpTimeout in common.go's init
+
 type c17inv struct {
 	kind, script string
 	creator      []byte
@@ -306,8 +310,9 @@ func (e *c17ex) Exec(op string) string {
 			go func(inv *c17inv) { ch <- e.sim(inv) }(inv)
 			select {
 			case solo[i] = <-ch:
-			case <-time.After(3 * time.Second):
-				e.flag("no_reply", "an invocation run alone did not finish within 3 s")
+			case <-time.After(stepLimit):
+				e.flag("no_reply", "an invocation run alone did not finish within "+stepLimit.String())
+				Hung = true // whatever holds it may hold the next one too: nothing further is run
 				return "hung"
 			}
 		}
@@ -348,7 +353,7 @@ func (e *c17ex) Exec(op string) string {
 					if j == i {
 						return true
 					}
-				case <-time.After(3 * time.Second):
+				case <-time.After(stepLimit):
 					return false
 				}
 			}
@@ -396,7 +401,8 @@ func (e *c17ex) Exec(op string) string {
 		}
 		e.c.Token.Hook = nil
 		if hung {
-			e.flag("no_reply", "an invocation neither reached its next switch point nor finished within 3 s under schedule "+w[1])
+			e.flag("no_reply", "an invocation neither reached its next switch point nor finished within "+stepLimit.String()+" under schedule "+w[1])
+			Hung = true
 			return "hung"
 		}
 		var outs []string
